@@ -9,7 +9,7 @@
           BoundedNormal._jump; draws = values returned by normal(mu_p, std_p)
     bd  lo=<csv> hi=<csv> succ=<csv 0|1> x=<csv> fuel=<n> draws=<csv>
           BoundedDiscrete._jump; lo/hi as given to the constructor; draws = normal(0, std_p)
-    nd  succ=<csv> x=<csv> draws=<csv>
+    nd  succ=<csv> x=<csv> fuel=<n> draws=<csv>
           NormalDiscrete._jump
     ang h=<q> invf=<q> f=<q> x=<csv> fuel=<n> draws=<csv>
           Angular._jump; draws = normal(scale=std_p/pi)
@@ -18,9 +18,10 @@
     ub  lo=<csv> hi=<csv> u=<csv>          UniformBirth.birth
     nb  mu=<csv> sd=<csv> z=<csv>          NormalBirth.birth
     lb  e=<csv>                            LogNormalBirth.birth from the float exponentials
-    sa  radec=<0|1> degs=<0|1> kappa=<q> norm=<q> pi=<q> d2r=<q> r2d=<q> x=<phi,theta> u=<u1,u2>
-        sites=<arg:arg2:val;...>  (20 numpy calls in call order; arg2 is `-` unless arctan2;
-                                   values may be nan, inf, -inf)
+    sa  radec=<0|1> degs=<0|1> kappa=<q> pi=<q> d2r=<q> r2d=<q> x=<phi,theta> u=<u1,u2>
+        sites=<arg:arg2:val;...>  (21 numpy calls in call order; arg2 is `-` unless arctan2;
+                                   values may be nan, inf, -inf; the 15th, arccos(mu[0]/rxy), is
+                                   the word `none` when the code did not make it: start at a pole)
 
   Answers:  ok y=<csv> used=<k> [dev=<q>] | refuse | starved | nan site=<name> dev=<q>
             | desync <site> | bad-request <why>
@@ -84,12 +85,18 @@ def parseSite (s : String) : Option Site :=
       pure { arg := a, arg2 := b, val := v }
   | _ => none
 
+def parseSiteOpt (s : String) : Option (Option Site) :=
+  if s = "none" then some none else (parseSite s).map some
+
 def parseOracle (s : String) : Option SAOracle :=
-  match (s.splitOn ";").mapM parseSite with
-  | some [a0, a1, a2, a3, a4, a5, a6, a7, a8, a9, a10, a11, a12, a13, a14, a15, a16, a17, a18, a19] =>
-    some { sinT0 := a0, cosP0 := a1, sinP0 := a2, cosT0 := a3, expK := a4, logA := a5, acosW := a6,
-           sinT1 := a7, cosP1 := a8, sinP1 := a9, cosT1 := a10, acosMz := a11, sqrtR := a12,
-           acosG := a13, sinB := a14, sinG := a15, cosB := a16, cosG := a17, atan2 := a18, acosZ := a19 }
+  match (s.splitOn ";").mapM parseSiteOpt with
+  | some [some a0, some a1, some a2, some a3, some a4, some a5, some a6, some a7, some a8, some a9,
+          some a10, some a11, some a12, some a13, g, some a15, some a16, some a17, some a18,
+          some a19, some a20] =>
+    some { sinT0 := a0, cosP0 := a1, sinP0 := a2, cosT0 := a3, expm1 := a4, log1p := a5, clipW := a6,
+           acosW := a7, sinT1 := a8, cosP1 := a9, sinP1 := a10, cosT1 := a11, acosMz := a12,
+           sqrtR := a13, acosG := g, sinB := a15, sinG := a16, cosB := a17, cosG := a18,
+           atan2 := a19, acosZ := a20 }
   | _ => none
 
 def showSA : SAOut → String
@@ -112,7 +119,8 @@ def handle (toks : List String) : Option String :=
       pure (showOutcome toString ds.length (bdJump bs (← kvRats r "x") (← kvNat r "fuel") ds))
   | "nd" :: r => do
       let ds ← kvRats r "draws"
-      pure (showOutcome toString ds.length (ndJump (← kvBools r "succ") (← kvRats r "x") ds))
+      pure (showOutcome toString ds.length
+        (ndJump (← kvBools r "succ") (← kvRats r "x") (← kvNat r "fuel") ds))
   | "ang" :: r => do
       let ds ← kvRats r "draws"
       let c : AngCfg := { h := ← kvRat r "h", invf := ← kvRat r "invf", f := ← kvRat r "f" }
@@ -152,7 +160,7 @@ def handle (toks : List String) : Option String :=
   | "sa" :: r => do
       let k : Consts := { pi := ← kvRat r "pi", d2r := ← kvRat r "d2r", r2d := ← kvRat r "r2d" }
       let c : SACfg := { radec := ← (kv r "radec").bind parseBool, degs := ← (kv r "degs").bind parseBool,
-                         kappa := ← kvRat r "kappa", norm := ← kvRat r "norm" }
+                         kappa := ← kvRat r "kappa" }
       let x ← kvRats r "x"
       let u ← kvRats r "u"
       let o ← (kv r "sites").bind parseOracle
